@@ -168,7 +168,7 @@ OodScens(j) == IF j > Len(Combos) THEN <<>>
 (***************************************************************************)
 PatBytes(s, n) == [i \in 1..n |-> PatByte(s, i - 1)]
 FriLayerCounts == <<0, 1, 2, 255>>
-FriParts == <<0, 1, 4, 63, 64, 255>>
+FriParts == <<0, 1, 4, 16, 62, 63>>
 FriRems == <<0, 8, 64, 513>>
 FriN == Len(FriLayerCounts) * Len(FriParts) * Len(FriRems)
 FriAt(i) == LET n == Pick(FriLayerCounts, i, 1) IN
